@@ -93,6 +93,19 @@ impl Prop for C04 {
                 emit("power", &bin(paren(bin(paren(a.clone()), Op::Pow, num(&n.to_string()))), Op::Mul, a.clone()), sink);
             }
         }
+        // powers around the machine-word boundaries of a unit's exponent (i8, i16 halves) and the
+        // product with the inverse power, on a base unit, a prefixed one, a derived one and one with a
+        // conversion factor
+        for (l, u) in [("2", "m"), ("2", "km"), ("3", "N"), ("2", "min"), ("0.5", "ft")] {
+            for n in [7i64, 8, 15, 16, 31, 32, 63, 64, 100, 127, 128, 129, 255, 256, 300] {
+                for n in [n, -n] {
+                    let p = bin(paren(qty(l, u)), Op::Pow, num(&n.to_string()));
+                    emit("power-wide", &p, sink);
+                    emit("power-wide", &bin(p.clone(), Op::Mul, bin(paren(qty(l, u)), Op::Pow, num(&(-n).to_string()))), sink);
+                    emit("power-wide", &bin(p.clone(), Op::Div, qty(l, u)), sink);
+                }
+            }
+        }
         // zero-valued quantities (written and computed): the unit is raised / multiplied all the same,
         // a negative power or a division by them is an error
         for w in ["m", "s", "kg", "N", "ft", "km", "btu"] {
